@@ -49,6 +49,8 @@ pub enum TapRef<'a> {
     U128(&'a mut u128),
     /// A byte buffer.
     Bytes(&'a mut [u8]),
+    /// A byte vector that may also be resized.
+    Vec(&'a mut Vec<u8>),
 }
 
 impl TapRef<'_> {
@@ -57,6 +59,7 @@ impl TapRef<'_> {
             TapRef::Bool(b) => TapRef::Bool(b),
             TapRef::U128(b) => TapRef::U128(b),
             TapRef::Bytes(b) => TapRef::Bytes(b),
+            TapRef::Vec(b) => TapRef::Vec(b),
         }
     }
 }
@@ -149,6 +152,10 @@ pub(crate) fn tap_u128(site: &'static str, idx: usize, v: &mut u128) {
 
 pub(crate) fn tap_bytes(site: &'static str, idx: usize, v: &mut [u8]) {
     with_tap(site, idx, TapRef::Bytes(v));
+}
+
+pub(crate) fn tap_vec(site: &'static str, idx: usize, v: &mut Vec<u8>) {
+    with_tap(site, idx, TapRef::Vec(v));
 }
 
 pub(crate) fn tap_share_bit(site: &'static str, idx: usize, mut s: Share) -> Share {
